@@ -172,4 +172,27 @@ pub fn generate(thorough: bool, seed: u64, em: &mut Emitter) {
         em.case("yaml", json!({"doc": doc, "claims": claims, "paths": paths, "expect_ok": true,
                                "nontrivial": marks.iter().any(|m| m.len() > 1) || marks.iter().any(|m| marks.iter().any(|q| q != m && gen::is_prefix(m, q)))}));
     }
+    // tags where the library does not support them (on a value, foreign tags, !sd on a non-string item): it may
+    // refuse the document, but when it answers, the claims must be the document without its tags - a tag must
+    // never turn into data
+    let names = ["name", "a", "x y", "0"];
+    let scalars: [(&str, Value); 4] = [("John", json!("John")), ("42", json!(42)), ("true", json!(true)), ("\"q\"", json!("q"))];
+    for (i, k) in names.iter().enumerate() {
+        for (text, val) in scalars.iter() {
+            let key = if k.contains(' ') || *k == "0" { format!("\"{}\"", k) } else { k.to_string() };
+            let docs: Vec<(String, Value)> = vec![
+                (format!("{}: !sd {}\nother: 1\n", key, text), json!({*k: val, "other": 1})),
+                (format!("{}: !country {}\n", key, text), json!({*k: val})),
+                (format!("{}:\n  - !country {}\n  - plain\n", key, text), json!({*k: [val, "plain"]})),
+                (format!("{}: !set [!sd {}, PL]\n", key, text), json!({*k: [val, "PL"]})),
+                (format!("{}: !rec {{inner: {}}}\n", key, text), json!({*k: {"inner": val}})),
+                (format!("!other {}: {}\n", key, text), json!({*k: val})),
+                (format!("{}:\n  - !sd {}\n", key, text), json!({*k: [val]})),
+            ];
+            for (j, (doc, claims)) in docs.into_iter().enumerate() {
+                em.case("yaml", json!({"doc": doc, "claims": claims, "paths": [], "expect_ok": "if_ok_then_untagged",
+                                       "nontrivial": true, "tag": "unsupported_tag_position", "variant": i * 10 + j}));
+            }
+        }
+    }
 }
